@@ -14,6 +14,9 @@ pub fn check(t: &Trace<'_>, out: &mut CaseOut) -> bool {
         // CONNECT advertises the receive-buffer size
         if let Some(CPacket::Connect { props, .. }) = c.out.packets.first().map(|p| &p.pkt) {
             let mps: Vec<u32> = props.iter().filter_map(|p| if let Prop::MaximumPacketSize(v) = p { Some(*v) } else { None }).collect();
+            if t.log.cfg.rx > 65_535 {
+                out.count("connects_with_receive_buffer_above_64k", 1);
+            }
             if mps != vec![t.log.cfg.rx as u32] {
                 out.violations.push(viol("C14", "C14/connect-advertises-wrong-size", format!("conn {}: CONNECT Maximum Packet Size {:?}, receive buffer is {}", ci.idx, mps, t.log.cfg.rx)));
             }
